@@ -328,6 +328,13 @@ def execute(mat, ctx):
                     expect[stem] = rec
                 else:
                     absent.append((stem, "unsupported-extension"))
+            # a sub-directory whose name is a present stem + a supported extension that is tried *before* the file's own
+            for stem in list(expect):
+                ext_of = [e for e in exts if F.isfile("%s.%s" % (stem, e))]
+                if ext_of and exts.index(ext_of[0]) > 0 and not F.exists("%s.%s" % (stem, exts[0])):
+                    F.makedir("%s.%s" % (stem, exts[0]))
+                    ctx.count("c20_directories_shadowing_a_stem")
+                    break
             F.makedir("sub")
             with F.open("sub/inner.gb", "w") as f:
                 f.write(gb_text(recs[0][1]))
@@ -404,6 +411,12 @@ def execute(mat, ctx):
     member_keys = []
 
     def add(R):
+        if len(member_keys) % 2 == 1:
+            # the combination is consulted between two additions (every kind of read access)
+            ctx.count("c20_reads_between_additions")
+            len(C), sorted(C), ("nope" in C), C.get("nope")
+            for k in list(model)[:2]:
+                C[k]
         if rng.random() < 0.5:
             C << R
         else:
